@@ -209,6 +209,10 @@ PLANS['C06'] = dict(
         G('cond_rounds', 'c-plain', 'B', 12, 4000, **MU),
         G('cond_rounds', 'c-plain', 'A', 4, 1500, thorough=40000, **MU),
         G('mu_mix', 'c-plain', 'B', 4, 2000, **MU),
+        # long queues: 20..44 conditional waiters with distinct conditions (beyond the 2..4 waiters the property quantifies over;
+        # added after seeded change C06d, a per-release evaluation budget of 32 conditions)
+        G('cond_scale', 'c-plain', 'B', 3, 60, thorough=1500, **MU),
+        G('cond_scale', 'c-plain', 'A', 1, 150, thorough=6000, **MU),
     ],
 )
 PLANS['C02']['groups'] += [G('cond_rounds', 'c-plain', 'B', 8, 4000, **MU), G('cond_rounds', 'c-plain', 'A', 2, 1500, thorough=40000, **MU)]
